@@ -398,7 +398,18 @@ type c07CycleSpec struct {
 	// owners = the pods that hold their devices INSIDE a reservation (the ledger books them on top of the reservation).
 	unmatched map[int][]*c07EvRsv
 	owners    map[int]bool
-	overconsumed bool // set by cycle(): some reservation's owners hold more than it does on a GPU (VERIF_C07_OVERCONSUME=1 only)
+	// set by cycle(): (node index, minor) of the GPUs on which an unmatched reservation's owners hold MORE than the reservation
+	// does (rsvOK false there): the class of the OPEN KNOWN FINDING C07:reserve-device-not-free:owner-exceeds-reservation
+	overOn map[[2]int]bool
+}
+
+func (sp *c07CycleSpec) overOnNode(i int) bool {
+	for k := range sp.overOn {
+		if k[0] == i {
+			return true
+		}
+	}
+	return false
 }
 
 func c07RsvListTok(l []*c07EvRsv) string {
@@ -618,6 +629,10 @@ func (m *c07Multi) cycle(sp *c07CycleSpec) (bool, bool) {
 					for k := 0; k < c07D; k++ {
 						if inside[k] > a.vec.val(k) {
 							hyp = false
+							if sp.overOn == nil {
+								sp.overOn = map[[2]int]bool{}
+							}
+							sp.overOn[[2]int{i, a.minor}] = true
 						}
 					}
 				}
@@ -627,7 +642,6 @@ func (m *c07Multi) cycle(sp *c07CycleSpec) (bool, bool) {
 			} else {
 				h.Obs("rsvhyp 0")
 				h.Tag("hyp:not-rsvOK")
-				sp.overconsumed = true
 			}
 		}
 	}
@@ -686,8 +700,10 @@ func (m *c07Multi) cycle(sp *c07CycleSpec) (bool, bool) {
 		}
 		h.Obs("filter %d", vB(st.IsSuccess()))
 		h.Tag(fmt.Sprintf("cycle:Filter:%d", vB(st.IsSuccess())))
-		if want := fits(nd); want != st.IsSuccess() && sp.overconsumed {
-			h.Tag("cycle:Filter:verdict-differs:owner-exceeds-reservation") // env-gated stream only: judged at Reserve
+		if want := fits(nd); !want && st.IsSuccess() && sp.overOnNode(i) {
+			// the open known finding can only turn a refusal into an admission, and only on a node with such a GPU: judged
+			// at Reserve (with the device in hand), tagged here
+			h.Tag("cycle:Filter:admitted-next-to-owner-exceeding-reservation")
 		} else if want != st.IsSuccess() {
 			h.Fail("C07:filter-verdict", "Filter of pod %d (%d GPU x %v, designated %v) on node %d answered %v; the GPUs it may use there fit = %v", id, cnt, req, designated, i, st, want)
 		}
@@ -723,7 +739,7 @@ func (m *c07Multi) cycle(sp *c07CycleSpec) (bool, bool) {
 	want := fits(nd)
 	if !res.ok {
 		h.Obs("alloc fail")
-		if want && !sp.overconsumed {
+		if want {
 			h.Fail("C07:reserve-refused-although-free", "Reserve of pod %d (%d GPU x %v, designated %v: %v) on node %d refused (%v) although the GPUs it may use are free there", id, cnt, req, designated, des, x, rst)
 		}
 		return false, false
@@ -777,8 +793,10 @@ func (m *c07Multi) cycle(sp *c07CycleSpec) (bool, bool) {
 			}
 			if a.vec.val(k) > free[k] {
 				fp := "C07:reserve-device-not-free"
-				if sp.overconsumed {
-					fp = "C07:reserve-device-not-free:owner-exceeds-reservation" // env-gated stream only
+				if sp.overOn[[2]int{x, a.minor}] {
+					// exactly the class of the open known finding: on THIS GPU an unmatched reservation's owners hold more
+					// than the reservation does; every other device keeps the plain fingerprint
+					fp = "C07:reserve-device-not-free:owner-exceeds-reservation"
 				}
 				h.Fail(fp, "pod %d: Reserve on node %d committed %v on GPU %d whose free amount there at that moment was %v (total %v, booked in use %v; unmatched reservations on the node: %v)", id, x, a.vec, a.minor, free, row.t, row.u, sp.unmatched != nil)
 				break
@@ -830,16 +848,22 @@ func (m *c07Multi) cycle(sp *c07CycleSpec) (bool, bool) {
 // it is booked ON TOP (the ledger counts both).  For a pod that does not match the reservation RestoreReservation /
 // mergeReservationAllocations hand Filter and Reserve a discount per GPU that must take out exactly the double-counted
 // part (what the owners consumed): what the reservation STILL holds is in use for everybody but its owners.
-// Oracle (freeOn): free on a GPU = total - (plain pods' holdings + every reservation's whole record);
+// Oracle (freeOn): free on a GPU = total - (plain pods' holdings + per reservation max(its whole record, what its owners hold there));
 //   C07:reserve-device-not-free  a committed GPU did not have the amount free at that moment
 //   C07:filter-verdict / C07:reserve-refused-although-free  as in the designated stream, on that notion of free.
-// Owners never hold more than their reservation does on a GPU and only GPUs of their reservation (what the Restricted
-// policy guarantees; see level_note for the other case).
+// Owners hold GPUs of their reservation only.  In 2 cases of 3 they never hold more than the reservation does on a GPU (what
+// the Restricted policy guarantees; the Lean hypothesis rsvOK); in 1 case of 3 they may (Default / Aligned policy): there
+// RestoreReservation's `remained` goes negative and the discount exceeds the reservation's record - OPEN KNOWN FINDING
+//   C07:reserve-device-not-free:owner-exceeds-reservation   used ONLY when the committed GPU itself is such a GPU.
 // ---------------------------------------------------------------------------------------------------------------
 func c07UnmatchedCase(t *testing.T, h *vHarness, r *vRand, pl *Plugin, podTx cache.TransformFunc, nodes []*corev1.Node, names []string) bool {
-	// VERIF_C07_OVERCONSUME=1 (off by default): an owner may hold MORE than its reservation does on a GPU (Default / Aligned
-	// policy: the rest comes out of the node's free amount), as much as is really free there
-	overEnv := os.Getenv("VERIF_C07_OVERCONSUME") == "1"
+	// OPEN KNOWN FINDING C07:reserve-device-not-free:owner-exceeds-reservation, 1 case in 3 (VERIF_C07_OVERCONSUME=1: every
+	// case, =0: never): an owner may hold MORE than its reservation does on a GPU (Default / Aligned policy: the rest comes
+	// out of the node's free amount), as much as is really free there
+	overEnv := os.Getenv("VERIF_C07_OVERCONSUME") == "1" || (os.Getenv("VERIF_C07_OVERCONSUME") != "0" && r.Chance(1, 3))
+	if overEnv {
+		h.Tag("stream:unmatched-reservations:owners-may-exceed")
+	}
 	nn := r.Range(1, 3)
 	mem := int64(r.Pick([]int64{16 << 30, 80 << 30}))
 	m := c07NewMulti(t, h, r, pl, podTx, nodes, names, nn, mem)
@@ -903,18 +927,22 @@ func c07UnmatchedCase(t *testing.T, h *vHarness, r *vRand, pl *Plugin, podTx cac
 			for _, a := range al {
 				left[a.minor] = amt
 			}
-			for o, no := 0, int(r.Pick([]int64{0, 0, 1, 1, 2})); o < no; o++ {
+			no := int(r.Pick([]int64{0, 0, 1, 1, 2}))
+			if overEnv && no == 0 {
+				no = 1
+			}
+			for o := 0; o < no; o++ {
 				var og []c07Alloc
 				for _, a := range al {
 					take := int64(r.Pick([]int64{20, 50, 100}))
-					if take > left[a.minor] {
+					if take > left[a.minor] || (overEnv && r.Bool()) {
 						take = left[a.minor]
 					}
 					if take == 0 || (len(al) > 1 && r.Chance(1, 3)) {
 						continue
 					}
 					left[a.minor] -= take
-					if room := 100 - held[[2]int{i, a.minor}]; overEnv && left[a.minor] == 0 && room >= 30 && rv.policy != schedulingv1alpha1.ReservationAllocatePolicyRestricted && r.Bool() {
+					if room := 100 - held[[2]int{i, a.minor}]; overEnv && left[a.minor] == 0 && room >= 30 && rv.policy != schedulingv1alpha1.ReservationAllocatePolicyRestricted && r.Chance(3, 4) {
 						extra := int64(30)
 						if room >= 50 && r.Bool() {
 							extra = 50
@@ -967,6 +995,9 @@ func c07UnmatchedCase(t *testing.T, h *vHarness, r *vRand, pl *Plugin, podTx cac
 			sp.cnt, sp.amount = 2, 100
 		}
 		sp.hint = r.Chance(5, 6)
+		if overEnv && r.Chance(2, 3) { // a request that fits into what an oversized discount pretends to be free
+			sp.cnt, sp.amount = 1, int64(r.Pick([]int64{30, 50}))
+		}
 		if r.Chance(1, 4) { // a designation on top (the annotation of an earlier placement)
 			sp.hasAnn = true
 			pm := r.Perm(3)
